@@ -4,18 +4,18 @@ CONSTANTS
   CupOn = FALSE
   Apps0 <- MCApps2
   SysApp = "a"
-  UcAnswers <- MCUcFlow
+  UcAnswers <- MCUcInstall
   EvAnswers <- MCEvOk
   PingAnswers <- MCPing
-  PlanAnswers = {"ok", "err"}
-  StartAnswers = {"ok", "deferred", "denied"}
-  ResultLetters = {"i", "d", "f"}
-  NeededAnswers = {TRUE, FALSE}
+  PlanAnswers = {"ok"}
+  StartAnswers = {"ok"}
+  ResultLetters = {"i", "f"}
+  NeededAnswers = {FALSE}
   AllowedAnswers = {TRUE}
   CheckAnswers <- MCCheckAll
   NextAnswers <- MCNext1
   BackoffDraws = {0}
-  ProgressSeqs <- MCProg0
+  ProgressSeqs <- MCProg3
   MaxChecks = 1
   MaxCtl = 0
   CtlSources <- MCNoSrc
@@ -25,7 +25,7 @@ CONSTANTS
   FailSets <- MCFailNone
   Jumps <- MCJumpNone
   MaxJumps = 0
-  ProgressModes = {"seq"}
+  ProgressModes = {"seq", "conc"}
   MaxStale = 0
   Bounded = TRUE
   Mut = "none"
